@@ -10,7 +10,7 @@ Mutation events
   ('apply',) ('flatten',)     c = c.apply_modifiers() / c = c.flatten()
   ('nest',)                   new circuit; add the current one into it
   ('setreg', v)               DurationRegistry.set_registry_at(key, v)
-  ('enter', cfgname) ('exit',)  enter / leave temporary_override_get_registry_at
+  ('enter', cfgname) ('exit',) ('exit-raise',)  enter / leave temporary_override_get_registry_at (normally / by an exception)
 Observation events
   ('obs', kind)  kind in ops | times | dur | acq | stim | plot | copy | plotnc
 """
@@ -34,6 +34,7 @@ class Session:
         self.rep_reg = RepetitionRegistry()
         self.rep_reg.set_registry_at('n', 2)
         self.ctx = None
+        self.not_restored = None
 
     # ------------------------------------------------------------ mutations
     def apply(self, ev):
@@ -78,10 +79,27 @@ class Session:
         elif k == 'exit':
             self.ctx.__exit__(None, None, None)
             self.ctx = None
+            self.check_restored()
+        elif k == 'exit-raise':
+            # the with-block is left by an exception (which the user catches): same obligations as a normal exit
+            exc = RuntimeError('left by an exception')
+            try:
+                self.ctx.__exit__(RuntimeError, exc, None)
+            except RuntimeError:
+                pass
+            self.ctx = None
+            self.check_restored()
         elif k == 'obs':
             self.observe(ev[1])
         else:
             raise ValueError(ev)
+
+    def check_restored(self):
+        """After leaving the temporary override the global durations are the ones that were in force before it."""
+        from qce_circuit.structure.registry_duration import GlobalDurationStrategy
+        now = {k: float(GlobalDurationStrategy(k).get_variable_duration(None)) for k in world.K}
+        if now != world.default_cfg():
+            self.not_restored = 'global durations are %r instead of %r' % ({k.name: v for k, v in now.items()}, {k.name: v for k, v in world.default_cfg().items()})
 
     def close(self):
         if self.ctx is not None:
@@ -144,7 +162,9 @@ def run_history(events):
     try:
         for ev in events:
             s.apply(ev)
-        return s.vector()
+        v = s.vector()
+        v['not-restored'] = s.not_restored
+        return v
     finally:
         s.close()
 
